@@ -93,6 +93,10 @@ type WSTransport struct {
 	conns   map[uint64]*wsConnection
 }
 
+// maxSubscribeRetries bounds how often Subscribe re-dials after it was handed a
+// pooled connection that was closing for lack of subscriptions.
+const maxSubscribeRetries = 3
+
 type dialResult struct {
 	done chan struct{}
 	conn *wsConnection
@@ -136,13 +140,24 @@ func NewWSTransport(ctx context.Context, opts WSTransportOptions) *WSTransport {
 // existing connection when one is available for the same endpoint, subprotocol,
 // headers, and init payload, dialing a new one otherwise.
 func (t *WSTransport) Subscribe(ctx context.Context, req *common.Request, opts common.Options, handler common.Handler) (func(), error) {
-	conn, err := t.getOrDial(ctx, opts)
-	if err != nil {
-		return nil, err
-	}
+	for attempt := 0; ; attempt++ {
+		conn, err := t.getOrDial(ctx, opts)
+		if err != nil {
+			return nil, err
+		}
 
-	id := xid.New().String()
-	return conn.subscribe(ctx, id, req, handler)
+		id := xid.New().String()
+		cancel, err := conn.subscribe(ctx, id, req, handler)
+		// The pooled connection decided to close because its last subscription
+		// went away before this one could register. That is not this caller's
+		// failure: drop the connection from the pool and dial a fresh one.
+		if errors.Is(err, errConnClosing) && attempt < maxSubscribeRetries && ctx.Err() == nil {
+			t.removeConn(connKey(opts), conn)
+			continue
+		}
+
+		return cancel, err
+	}
 }
 
 // pingLoop sends periodic pings to all active connections and shuts down
